@@ -1192,6 +1192,16 @@ func (env *Environment) setState(state string) {
 	env.Sm.SetState(state)
 }
 
+// ForceError sets ERROR without an FSM event, under the mutex that serialises transitions and teardown.
+func (env *Environment) ForceError() {
+	if env == nil {
+		return
+	}
+	env.transitionMutex.Lock()
+	defer env.transitionMutex.Unlock()
+	env.setState("ERROR")
+}
+
 func (env *Environment) subscribeToWfState(taskman *task.Manager) {
 	go func() {
 		wf := env.Workflow()
@@ -1233,7 +1243,7 @@ func (env *Environment) subscribeToWfState(taskman *task.Manager) {
 											WithError(err).
 											WithField("level", infologger.IL_Devel).
 											Warn("could not transition gently to ERROR, forcing it")
-										env.setState(wfState.String())
+										env.ForceError()
 									}
 								}
 								toStop := env.Workflow().GetTasks().Filtered(func(t *task.Task) bool {
@@ -1476,7 +1486,7 @@ func (env *Environment) scheduleAutoStopTransition() (scheduled bool, expected t
 							log.WithField("partition", env.id).
 								WithField("run", env.currentRunNumber).
 								Errorf("Forced transition to ERROR failed: %s", err.Error())
-							env.setState("ERROR")
+							env.ForceError()
 						}
 						return
 					}
